@@ -7,7 +7,7 @@
 From Coq Require Import String.
 From Coq Require Import List NArith ZArith Bool.
 From SK Require Import lib.LGraph lib.C01_GraphLemmas model.C01_Model model.C02_Model model.C01_Opts model.C01_String model.C01_Renum model.C01_Attrs model.C01_CleanWc model.C01_Rsmi model.C01_Nbrs model.C01_Rewrite model.C01_Conv model.C01_G2M
-  proof.C01_Proof proof.C01_OptsProof proof.C01_StringProof proof.C01_StringHyd proof.C01_StringPipe proof.C01_StringEH proof.C01_StringRenum proof.C01_StringHydExt proof.C01_RenumCentre proof.C01_RenumWrite proof.C01_StringEHwf proof.C01_AttrsProof proof.C01_StringPipeH proof.C01_CleanWcProof proof.C01_RsmiProof proof.C01_NbrsProof proof.C01_RewriteProof proof.C01_ConvProof proof.C01_G2MProof proof.C01_WriteExt.
+  proof.C01_Proof proof.C01_OptsProof proof.C01_StringProof proof.C01_StringHyd proof.C01_StringPipe proof.C01_StringEH proof.C01_StringRenum proof.C01_StringHydExt proof.C01_RenumCentre proof.C01_RenumWrite proof.C01_StringEHwf proof.C01_AttrsProof proof.C01_StringPipeH proof.C01_CleanWcProof proof.C01_RsmiProof proof.C01_NbrsProof proof.C01_RewriteProof proof.C01_ConvProof proof.C01_G2MProof proof.C01_WriteExt proof.C01_RewriteCheck.
 Import ListNotations.
 Local Open Scope Z_scope.
 
@@ -667,3 +667,11 @@ Proof.
   - exact rewritten_written.
 Qed.
 Print Assumptions C01_written_invariant.
+
+(** 42. the executable test the correspondence runs on what RDKit reads from a SMILES and from its re-rooted / fragment-shuffled
+        rewriting (kind rw-premise; renumbering derived from the atom maps) is sound for the hypothesis [rewritten] of theorems
+        37 and 41: whenever it evaluates to true, that hypothesis holds for the two readings *)
+Theorem C01_rewritten_test_sound : forall (sl : list nat) (m m' : rmol),
+  rewrittenb sl m m' = true -> rewritten (s_of sl) m m'.
+Proof. exact rewrittenb_sound. Qed.
+Print Assumptions C01_rewritten_test_sound.
